@@ -208,11 +208,16 @@ def io_cases(rng, n):
         for cut in range(0, len(raw) + 1):
             parts = [raw[:cut], raw[cut:]] if 0 < cut < len(raw) else [raw]
             out.append({"kind": "io", "delim": "\n", "chunks_hex": [p.hex() for p in parts]})
+            if len(parts) == 2:
+                # the same cut with an idle poll (nothing new in the file) between the two writes
+                out.append({"kind": "io", "delim": "\n", "chunks_hex": [parts[0].hex(), "", parts[1].hex()]})
     for _ in range(n):
         L = rng.randint(1, 10)
         alpha = ["a", "\r", "\n", "\r\n", "b"] + (["é", "€"] if rng.random() < 0.4 else [])
         s = "".join(rng.choice(alpha) for _ in range(L)).encode()
         parts = [p.encode("latin1") for p in random_cuts(rng, s.decode("latin1"))]
+        if rng.random() < 0.5:
+            parts = [q for p in parts for q in ([p, b""] if rng.random() < 0.4 else [p])]   # idle polls in between
         out.append({"kind": "io", "delim": "\n", "chunks_hex": [p.hex() for p in parts]})
     return out
 
